@@ -258,3 +258,17 @@ package ice
 //@   site call ReadFromAddrPort#0 ghost gotN := result0
 //@   site call ReadFromAddrPort#0 ghost gotSrc := result1
 //@   ensures every-datagram-read-from-the-socket-is-passed-on-with-its-source: reads == 1 && n == gotN && addrPort == gotSrc
+
+// A handle is handed out only on a connection that was just created or was found open: a connection whose last
+// handle was closed stays registered until its watcher runs, and must not be handed out again meanwhile.
+//@ func (*UDPMuxDefault).GetConn
+//@   props C12 C13
+//@   opt nosafety
+//@   ghostvar created bool = false
+//@   ghostvar foundOpen bool = false
+//@   site call isClosed#1 ghost foundOpen := !result
+//@   site call createMuxedConn#1 ghost created := true
+//@   site call newSharedAddrPortConn#1 assume reference-counter-not-exhausted: muxedConn.refs < 2147483647
+//@   site call newSharedPacketConn#1 assume reference-counter-not-exhausted: muxedConn.refs < 2147483647
+//@   site call newSharedAddrPortConn#1 assert a-handle-is-handed-out-only-on-an-open-connection: (created || foundOpen) && arg0 == muxedConn
+//@   site call newSharedPacketConn#1 assert a-handle-is-handed-out-only-on-an-open-connection: (created || foundOpen) && arg0.payload == muxedConn
